@@ -875,6 +875,35 @@ func whoMayCall(c *core.Ctx) {
 	if n == 0 {
 		c.OK("C20-WHO", "SetErrNil<-nobody", "", "no caller")
 	}
+	// no Writer/Reader/PDUStringer method other than Release itself releases its receiver: callers pair every constructor
+	// with exactly one (deferred) Release, so a second release from inside a method hands one pooled buffer to two owners.
+	nRel := 0
+	for fn := range ssaFunctions(c.Prog) {
+		if fn.Pkg == nil || load.Rel(fn.Pkg.Pkg.Path()) != "packet" || fn.Signature.Recv() == nil || fn.Name() == "Release" {
+			continue
+		}
+		for _, b := range fn.Blocks {
+			for _, ins := range b.Instrs {
+				call, ok := ins.(ssa.CallInstruction)
+				if !ok {
+					continue
+				}
+				cal := call.Common().StaticCallee()
+				if cal == nil {
+					continue
+				}
+				isRelease := cal.Name() == "Release" && cal.Pkg != nil && load.Rel(cal.Pkg.Pkg.Path()) == "packet"
+				isPut := cal.Name() == "Put" && cal.Signature.Recv() != nil && (strings.Contains(cal.Signature.Recv().Type().String(), "bytebufferpool.Pool") || strings.Contains(cal.Signature.Recv().Type().String(), "sync.Pool"))
+				if isRelease || isPut {
+					nRel++
+					c.Fail("C20-WHO", "Release<-"+funcKey(fn), c.Prog.Pos(ins.Pos()), funcKey(fn)+" releases pooled storage although it is not the Release method: the caller's own (deferred) Release returns the same buffer a second time")
+				}
+			}
+		}
+	}
+	if nRel == 0 {
+		c.OK("C20-WHO", "Release<-only-Release", "", "no packet method other than Release returns pooled storage")
+	}
 }
 
 func ssaFunctions(prog *load.Program) map[*ssa.Function]bool {
